@@ -102,6 +102,9 @@ type op struct {
 	Text  []string      `json:"text,omitempty"`
 	W     int           `json:"w,omitempty"`
 	Shape int           `json:"shape,omitempty"`
+	// Nest: the cursor is requested through windows nested at these offsets
+	// (each relative to its parent); Col/Row stay screen coordinates
+	Nest [][2]int `json:"nest,omitempty"`
 }
 
 type frame struct {
@@ -225,7 +228,14 @@ func genFrame(r gen.R, cols, rows int, m widthtab.Method, allowResize bool) fram
 			st := r.Style()
 			f.Ops = append(f.Ops, op{Op: "print", Col: col, Row: row, W: avail, Text: text, Style: &st})
 		case k < 19:
-			f.Ops = append(f.Ops, op{Op: "showcursor", Col: r.Intn(cols), Row: r.Intn(rows), Shape: r.Intn(7)})
+			o := op{Op: "showcursor", Col: r.Intn(cols), Row: r.Intn(rows), Shape: r.Intn(7)}
+			// half of the requests go through 1-3 nested windows
+			for n, x, y := r.Intn(4), o.Col, o.Row; n > 0 && r.Intn(2) == 0; n-- {
+				dx, dy := r.Intn(x+1), r.Intn(y+1)
+				o.Nest = append(o.Nest, [2]int{dx, dy})
+				x, y = x-dx, y-dy
+			}
+			f.Ops = append(f.Ops, o)
 		default:
 			f.Ops = append(f.Ops, op{Op: "hidecursor"})
 		}
@@ -283,7 +293,16 @@ func (st *state) apply(o op) {
 			col += w
 		}
 	case "showcursor":
-		st.vx.ShowCursor(o.Col, o.Row, vaxis.CursorStyle(o.Shape))
+		if len(o.Nest) > 0 {
+			cw, x, y := win, o.Col, o.Row
+			for _, d := range o.Nest {
+				cw = cw.New(d[0], d[1], -1, -1)
+				x, y = x-d[0], y-d[1]
+			}
+			cw.ShowCursor(x, y, vaxis.CursorStyle(o.Shape))
+		} else {
+			st.vx.ShowCursor(o.Col, o.Row, vaxis.CursorStyle(o.Shape))
+		}
 		st.cur.visible, st.cur.col, st.cur.row, st.cur.shape = true, o.Col, o.Row, o.Shape
 	case "hidecursor":
 		st.vx.HideCursor()
